@@ -17,6 +17,13 @@ def main():
         if a.startswith('--specs='): specs = BASE_SPEC + a.split('=')[1].split(',')
         if a.startswith('--cfg='): engine.ACTIVE_CFGS = engine.CFGS + ['feature="%s"' % f for f in a.split('=')[1].split(',')]
     if only is not None and specs is None: specs = BASE_SPEC
+    if only is None and specs is None:
+        # whole-crate run = the default configuration: leave out what other configurations own (configs.json)
+        cf = {k: v for k, v in json.load(open(os.path.join(engine.VERIF, 'configs.json'))).items() if not k.startswith('_')}
+        ov = set(o for c in cf.values() for o in c.get('own', []))
+        os_ = set(o for c in cf.values() for o in c.get('own_specs', []))
+        only = sorted(n[:-3] for n in os.listdir(os.path.join(engine.VERIF, 'contracts')) if n.endswith('.vc') and n[:-3] not in ov)
+        specs = sorted(n[:-3] for n in os.listdir(os.path.join(engine.VERIF, 'spec')) if n.endswith('.rs') and n[:-3] not in os_)
     patches = [a.split('=')[1] for a in sys.argv[1:] if a.startswith('--patch=')]
     def patch_fn(src):
         import subprocess
